@@ -49,6 +49,9 @@ type Ctx struct {
 	violations  int
 	knownSeen   map[string]int
 	replayPaths []string
+	noEvidence  bool   // replay runs do not rewrite the evidence file
+	wantWhy     string // replay: the violation class to look for
+	sawWantWhy  bool
 }
 
 func NewCtx(prop, tier string, seed int) (*Ctx, error) {
@@ -117,6 +120,13 @@ func (c *Ctx) Known(dev string) { c.knownSeen[dev]++ }
 // Violation writes a replay file and prints the VIOLATION line.
 func (c *Ctx) Violation(why string, replay interface{}) {
 	c.violations++
+	if c.wantWhy != "" && (why == c.wantWhy || strings.HasPrefix(c.wantWhy, why) || strings.HasPrefix(why, c.wantWhy)) {
+		c.sawWantWhy = true
+	}
+	if c.noEvidence {
+		fmt.Printf("  still violated: %s\n", why)
+		return
+	}
 	if len(c.replayPaths) >= 25 {
 		return // enough replay files; the count is still reported
 	}
@@ -160,6 +170,12 @@ func (c *Ctx) Finish(level string, cov Coverage, assumptions []string) int {
 		"violations":  c.violations,
 	}
 	b, _ := json.MarshalIndent(ev, "", " ")
+	if c.noEvidence {
+		if c.violations > 0 {
+			return 1
+		}
+		return 0
+	}
 	_ = os.MkdirAll(filepath.Join(Root, "evidence"), 0o755)
 	if err := os.WriteFile(filepath.Join(Root, "evidence", c.Prop+".json"), b, 0o644); err != nil {
 		fmt.Fprintln(os.Stderr, "cannot write evidence:", err)
